@@ -228,6 +228,9 @@ class Checker:
     def can_assume_compatibility(self, left: TypeObject, right: TypeObject) -> bool:
         return (left, right) in self.assumed_compatibilities
 
+    def has_assumed_compatibilities(self) -> bool:
+        return bool(self.assumed_compatibilities)
+
     @contextmanager
     def assume_compatibility(
         self, left: TypeObject, right: TypeObject
